@@ -7,7 +7,7 @@ CLOSED = ["Noh", "Noh2", "Noh2Cog"] + COG
 PATTERNS = [("SCS", "ul>ur"), ("RCR", "ul<ur")] + [(p, u) for p in ("SCR", "RCS") for u in ("ul<ur", "ul=ur", "ul>ur")]
 
 
-EXTRA = {"EHEP": "ehep", "EPpiston": "eppiston", "Mader": "mader", "BBNoh": "bbnoh", "SDRZ": "sdrz", "RiemannGen": "riemann_gen", "RiemannJWL": "riemann_gen", "RMTV": "rmtv"}
+EXTRA = {"EHEP": "ehep", "EPpiston": "eppiston", "Mader": "mader", "BBNoh": "bbnoh", "SDRZ": "sdrz", "RiemannGen": "riemann_gen", "RiemannJWL": "riemann_gen", "RMTV": "rmtv", "Guderley": "guderley"}
 
 
 def fams(groups, closed=True, riemann=True, only=None, sedov=True, extra=()):
